@@ -915,6 +915,114 @@ func (g *gen) cacheOp() {
 	}
 }
 
+// holeScenario: a layout of 3..6 regions, the cache warmed over the whole key space, then one or two MIDDLE regions
+// get the need-reload flag or are invalidated (what TTL expiry looks like to the lookups), then batch / range lookups
+// spanning them (one range, several ranges, ranges starting inside the flagged region).  The cache scan of
+// BatchLocateKeyRanges drops flagged regions after the B-tree walk, so its per-region contiguity check matters here.
+func (g *gen) holeScenario() {
+	k := 3 + g.r.Intn(4)
+	pts := g.sortedPoints(k - 1)
+	lastID := uint64(1)
+	for _, p := range pts {
+		if len(p) == 0 {
+			continue
+		}
+		out := g.do(fmt.Sprintf("split %d %d %s", lastID, g.nextID, vx.Hex(p)))
+		if strings.HasPrefix(out, "ok") {
+			g.nTopo++
+			lastID = g.nextID
+		}
+		g.nextID++
+	}
+	st := pdState(g.w.live)
+	if len(st) < 3 {
+		return
+	}
+	// warm the whole span
+	if g.r.Bool() {
+		g.do("range - -")
+	} else {
+		g.do("batch -:-")
+	}
+	// flag middle regions
+	nflag := 1 + g.r.Intn(2)
+	for i := 0; i < nflag; i++ {
+		m := st[1+g.r.Intn(len(st)-2)]
+		switch g.r.Intn(3) {
+		case 0:
+			g.do(fmt.Sprintf("inval %d", m.id))
+		default:
+			g.do(fmt.Sprintf("needreload %d", m.id))
+		}
+	}
+	if g.r.Chance(30) {
+		g.do("pdview 0") // PD answers with the unsplit key space while the flagged regions are reloaded
+	}
+	g.do("dump")
+	inside := func(r region) []byte {
+		if g.r.Bool() {
+			k := append(append([]byte{}, r.start...), 0)
+			if contains(r.start, r.end, k) {
+				return k
+			}
+		}
+		return r.start
+	}
+	for q := 0; q < 3; q++ {
+		// points inside distinct regions, ascending
+		var ps [][]byte
+		for _, r := range st {
+			if g.r.Chance(70) {
+				ps = append(ps, inside(r))
+			}
+		}
+		if len(ps) < 2 {
+			ps = [][]byte{inside(st[0]), inside(st[len(st)-1])}
+		}
+		endOf := func(i int) string {
+			if i+1 < len(ps) {
+				return vx.Hex(ps[i+1])
+			}
+			return "-"
+		}
+		switch g.r.Intn(3) {
+		case 0: // one range over everything chosen
+			end := "-"
+			if g.r.Bool() {
+				end = vx.Hex(ps[len(ps)-1])
+				if len(ps[len(ps)-1]) == 0 {
+					end = "-"
+				}
+			}
+			g.do("batch " + vx.Hex(ps[0]) + ":" + end)
+		case 1: // adjacent ranges, each from one chosen point to the next
+			var rs []string
+			for i := range ps {
+				if i+1 == len(ps) && g.r.Bool() {
+					break
+				}
+				rs = append(rs, vx.Hex(ps[i])+":"+endOf(i))
+			}
+			if len(rs) == 0 {
+				rs = append(rs, vx.Hex(ps[0])+":-")
+			}
+			g.do("batch " + strings.Join(rs, " "))
+		default:
+			end := "-"
+			if g.r.Bool() && len(ps[len(ps)-1]) != 0 {
+				end = vx.Hex(ps[len(ps)-1])
+			}
+			g.do("range " + vx.Hex(ps[0]) + " " + end)
+		}
+		g.do("dump")
+		if g.r.Chance(50) {
+			m := st[1+g.r.Intn(len(st)-2)]
+			g.do(fmt.Sprintf("needreload %d", m.id))
+		}
+	}
+	g.do("pdview live")
+}
+
 func (g *gen) oneCase(n int, nops int) {
 	g.run.Comment(fmt.Sprintf("case %d", n))
 	g.w = newWorld(g.w)
@@ -922,8 +1030,14 @@ func (g *gen) oneCase(n int, nops int) {
 	g.nextID = 2
 	g.nTopo = 0
 	shape := g.r.Intn(3)
+	family := g.r.Intn(4) == 0
+	if family {
+		g.run.Count("family:hole")
+		g.holeScenario()
+		nops /= 2
+	}
 	// initial partition
-	for i, k := 0, g.r.Intn(6); i < k; i++ {
+	for i, k := 0, g.r.Intn(6); i < k && !family; i++ {
 		st := pdState(g.w.live)
 		pick := st[g.r.Intn(len(st))]
 		out := g.do(fmt.Sprintf("split %d %d %s", pick.id, g.nextID, vx.Hex(g.key())))
